@@ -11,7 +11,7 @@ ID = 'C02'
 PROPS_FILE = 'theories/Props/C02.v'
 PROPS_MODULE = 'Props.C02'
 COQ_TARGETS = ['theories/Extract/ExtractSyntax.vo']
-REQUIRED_THEOREMS = ['C02_roundtrip_simple_partial', 'C02_simple_is_wellformed', 'C02_layout_independent_simple_partial', 'C02_roundtrip_statement_refuted_by_D7', 'C02_roundtrip_multiline_partial', 'C02_multiline_is_wellformed', 'C02_layout_independent_multiline_partial', 'C02_simple_in_multiline', 'C02_roundtrip_select_partial', 'C02_select_is_wellformed', 'C02_layout_independent_select_partial', 'C02_select_depth_monotone', 'C02_roundtrip_wellformed_partial', 'C02_layout_independent_wellformed_partial', 'C02_roundtrip_nested_partial', 'C02_nested_is_wellformed', 'C02_wellformed_in_nested', 'C02_D7_parse', 'C02_wellformed_refuted_exactly', 'C02_D7_excluded', 'C02_rendered_source_is_utf8']
+REQUIRED_THEOREMS = ['C02_roundtrip_simple_partial', 'C02_simple_is_wellformed', 'C02_layout_independent_simple_partial', 'C02_roundtrip_statement_refuted_by_D7', 'C02_roundtrip_multiline_partial', 'C02_multiline_is_wellformed', 'C02_layout_independent_multiline_partial', 'C02_simple_in_multiline', 'C02_roundtrip_select_partial', 'C02_select_is_wellformed', 'C02_layout_independent_select_partial', 'C02_select_depth_monotone', 'C02_roundtrip_wellformed_partial', 'C02_layout_independent_wellformed_partial', 'C02_roundtrip_nested_partial', 'C02_nested_is_wellformed', 'C02_wellformed_in_nested', 'C02_D7_parse', 'C02_wellformed_refuted_exactly', 'C02_D7_excluded', 'C02_rendered_source_is_utf8', 'C02_parse_all_layouts_partial', 'C02_rendered_is_layout']
 MODEL = 'syn'
 HARNESS_BINS = ['syn_run']
 ANCHORS = ['fluent-syntax/src/parser/core.rs', 'fluent-syntax/src/parser/pattern.rs', 'fluent-syntax/src/parser/expression.rs',
